@@ -647,7 +647,10 @@ def _check_emitters(ctx, res: RuleResult):
                     if id(f) in seen_filters:
                         continue
                     seen_filters.add(id(f))
-                    okf = _accepted_filter(fi, f, owner)
+                    okf = _accepted_filter(ctx, fi, f, owner, {k for k, v in label_vars.items()})
+                    if okf is None:
+                        raise AnalysisError(f"R-CODEC: cannot tell whether the filter `{short(f if not isinstance(f, ast.Continue) else (_guard_of(owner, f) or f))}` "
+                                            f"in {fi.qualname} drops part of the molecule (iteration over {kind})")
                     res.inst(fi.fq, f"iteration over {kind}: filter `{short(f)}`", "ok" if okf else "fail")
                     if not okf:
                         res.fail(Finding("R-CODEC", fi.module.rel, fi.qualname, norm(f if not isinstance(f, (ast.Continue, ast.Break)) else _guard_of(owner, f) or f),
@@ -709,23 +712,111 @@ def _guard_of(loop: ast.AST, stmt: ast.AST) -> Optional[ast.AST]:
     return None
 
 
-def _accepted_filter(fi: FuncInfo, f: ast.AST, owner: ast.AST) -> bool:
-    """accepted: `continue` guarded by `not <list built with only a key-presence filter>`"""
+def _presence_collection(ctx, fi: FuncInfo, e: ast.expr, scope: ast.AST, depth=0):
+    """Is e a collection of the serialised attributes an atom has, built under key-presence tests only (so that it is
+    empty exactly for an atom without such attributes)?  True / False (it depends on something else) / None (cannot tell)"""
+    if depth > 4 or e is None:
+        return None
+    if isinstance(e, ast.NamedExpr):
+        return _presence_collection(ctx, fi, e.value, scope, depth + 1)
+    if isinstance(e, ast.Name):
+        defs = [n.value for n in ast.walk(scope) if isinstance(n, ast.Assign) and isinstance(n.targets[0], ast.Name) and n.targets[0].id == e.id]
+        defs += [n.value for n in ast.walk(scope) if isinstance(n, ast.NamedExpr) and n.target.id == e.id]
+        if len(defs) == 1:
+            return _presence_collection(ctx, fi, defs[0], scope, depth + 1)
+        if len(defs) >= 2 and all(isinstance(d, (ast.List, ast.Dict, ast.Set)) and not (getattr(d, "elts", None) or getattr(d, "keys", None)) for d in defs[:1]):
+            return None
+        # a list started empty and appended to under presence tests
+        empties = [d for d in defs if isinstance(d, (ast.List, ast.Dict, ast.Set)) and not (getattr(d, "elts", None) or getattr(d, "keys", None))]
+        if empties and len(defs) == len(empties):
+            return _appends_under_presence(scope, e.id)
+        return None
+    if isinstance(e, (ast.ListComp, ast.GeneratorExp, ast.SetComp, ast.DictComp)) and len(e.generators) == 1:
+        ifs = e.generators[0].ifs
+        if all(isinstance(c, ast.Compare) and len(c.ops) == 1 and isinstance(c.ops[0], ast.In) for c in ifs) and ifs:
+            return True
+        return False if ifs else None
+    if isinstance(e, ast.List) and not e.elts:
+        return _appends_under_presence(scope, None)
+    if isinstance(e, ast.BinOp) and isinstance(e.op, ast.BitAnd) and all(isinstance(x, ast.Call) and isinstance(x.func, ast.Attribute) and x.func.attr == "keys" for x in (e.left, e.right)):
+        return True
+    if isinstance(e, ast.Call):
+        cs = ctx.cg.resolve_call(fi, e, ctx.cg.local_types(fi), set(params_of(fi.node)))
+        if cs.kind == "tucan":
+            h = cs.target
+            rets = [r for r in own_walk(h.node) if isinstance(r, ast.Return) and r.value is not None]
+            if len(rets) == 1:
+                return _presence_collection(ctx, h, rets[0].value, h.node, depth + 1)
+        if isinstance(e.func, ast.Name) and e.func.id in ("list", "tuple", "sorted", "set") and e.args:
+            return _presence_collection(ctx, fi, e.args[0], scope, depth + 1)
+    return None
+
+
+def _appends_under_presence(scope: ast.AST, name: Optional[str]):
+    """every append/add to the collection `name` inside scope is guarded by key-presence tests only"""
+    found = False
+    for n in ast.walk(scope):
+        if isinstance(n, ast.Call) and isinstance(n.func, ast.Attribute) and n.func.attr in ("append", "add", "extend") and isinstance(n.func.value, ast.Name) \
+                and (name is None or n.func.value.id == name):
+            found = True
+            # guards between the append and the scope
+            guards = []
+            def find(node, acc):
+                for child in ast.iter_child_nodes(node):
+                    if child is n or any(x is n for x in ast.walk(child)):
+                        if isinstance(node, ast.If):
+                            inb = any(child is b_ or any(x is n for x in ast.walk(b_)) for b_ in node.body)
+                            acc = acc + [(node.test, inb)]
+                        if child is n:
+                            guards.extend(acc)
+                            return True
+                        return find(child, acc)
+                return False
+            find(scope, [])
+            # `if k not in attrs: continue` before the append counts as a presence guard as well
+            for t, pol in guards:
+                ok = isinstance(t, ast.Compare) and len(t.ops) == 1 and isinstance(t.ops[0], (ast.In, ast.NotIn)) and (isinstance(t.ops[0], ast.In) == pol)
+                if not ok:
+                    return False
+    if not found:
+        return None
+    # continue-guards in the enclosing loops
+    for n in ast.walk(scope):
+        if isinstance(n, ast.If) and any(isinstance(x, ast.Continue) for x in n.body):
+            t = n.test
+            if not (isinstance(t, ast.Compare) and len(t.ops) == 1 and isinstance(t.ops[0], ast.NotIn)):
+                return False
+    return True
+
+
+def _accepted_filter(ctx, fi: FuncInfo, f: ast.AST, owner: ast.AST, label_names: set):
+    """True: the filter only skips atoms that have none of the serialised attributes; False: it can drop part of the
+    molecule; None: cannot tell"""
     if isinstance(f, ast.Break):
         return False
+    test, pol = (f, True)
     if isinstance(f, ast.Continue):
         g = _guard_of(owner, f)
-        if isinstance(g, ast.UnaryOp) and isinstance(g.op, ast.Not) and isinstance(g.operand, ast.Name):
-            d = None
-            for n in ast.walk(owner):
-                if isinstance(n, ast.Assign) and isinstance(n.targets[0], ast.Name) and n.targets[0].id == g.operand.id:
-                    d = n.value
-            if isinstance(d, ast.ListComp) and len(d.generators) == 1:
-                ifs = d.generators[0].ifs
-                return all(isinstance(c, ast.Compare) and len(c.ops) == 1 and isinstance(c.ops[0], ast.In) for c in ifs)
+        if g is None:
+            return False
+        test, pol = g, False        # the element is kept when the guard is false
+    t = test
+    neg = False
+    while isinstance(t, ast.UnaryOp) and isinstance(t.op, ast.Not):
+        t, neg = t.operand, not neg
+    keep_when_truthy = (not neg) == pol
+    # anything that looks at the label / the endpoints or compares attribute values decides which atoms or bonds appear
+    if any(isinstance(x, ast.Name) and x.id in label_names for x in ast.walk(t)):
         return False
-    # comprehension filter on an edge / node iteration
-    return False
+    if isinstance(t, ast.Compare) and not (len(t.ops) == 1 and isinstance(t.ops[0], (ast.In, ast.NotIn))):
+        return False
+    if isinstance(t, ast.Compare):
+        # `if K in attrs` as the element filter of a per-attribute loop is handled by the caller's iteration kind
+        return None
+    pc = _presence_collection(ctx, fi, t, owner if not isinstance(owner, (ast.ListComp, ast.GeneratorExp, ast.SetComp, ast.DictComp)) else fi.node)
+    if pc is True:
+        return True if keep_when_truthy else False
+    return pc
 
 
 # --------------------------------------------------------------------------- R-ATTRREAD
